@@ -62,6 +62,20 @@ theorem unknown_name_rejected {P : Type} (plans : List (String × P)) (name : St
     simp only [f_empty, h1, Bool.and_false]
     exact ⟨_, forOperation_unknown _ name h⟩
 
+/-- **names are compared exactly**: of two operations whose names differ only in the case of a letter, the one that is
+    named is the one that is executed, and a name that is a case variant of an operation's name without being any
+    operation's name selects nothing -/
+theorem names_are_compared_exactly {P : Type} (a b : P) :
+    selectPlan Gen.opSelect [("Op0", a), ("op0", b)] "op0" = .ok b ∧
+    selectPlan Gen.opSelect [("Op0", a), ("op0", b)] "Op0" = .ok a ∧
+    (∃ e, selectPlan Gen.opSelect [("Op0", a), ("op0", b)] "OP0" = .error e) ∧
+    (∃ e, selectPlan Gen.opSelect [("Op0", a)] "op0" = .error e) := by
+  refine ⟨?_, ?_, ?_, ?_⟩
+  · unfold selectPlan; simp [f_empty, forOperation]
+  · unfold selectPlan; simp [f_empty, forOperation]
+  · exact unknown_name_rejected _ "OP0" (by decide) (by intro p hp; simp at hp; rcases hp with rfl | rfl <;> simp)
+  · exact unknown_name_rejected _ "op0" (by decide) (by intro p hp; simp at hp; subst hp; simp)
+
 /-- non-vacuity -/
 example : (selectPlan Gen.opSelect [("A", 1), ("B", 2)] "B").toOption = some 2 ∧
           (selectPlan Gen.opSelect [("A", 1)] "Z").toOption = none := by
